@@ -4,6 +4,7 @@ mod paging;
 mod z80rec;
 mod timing;
 mod tape;
+mod input;
 
 fn main() {
     let mut it = std::env::args().skip(1);
@@ -17,6 +18,7 @@ fn main() {
         "z80" => z80rec::run(&args),
         "timing" => timing::run(&args),
         "tape" => tape::run(&args),
+        "input" => input::run(&args),
         _ => {
             eprintln!("unknown sub-command {cmd:?}");
             std::process::exit(2);
